@@ -36,7 +36,7 @@ def run():
     if len(skipped) > len(c1) // 10:
         raise vlib.Inconclusive("%d of %d transparency cases not judged" % (len(skipped), len(c1)))
     t2 = os.path.join(vlib.scratch(), "tailspace.ndjson")
-    vlib.run_zv(zv, "tail", ["-mode", "space"], t2, timeout=3000)
+    vlib.run_zv(zv, "tail", ["-mode", "space"], t2, timeout=6000)
     c2, v2 = flow.validate(out, "tail", "TailTrace.tla", "TailTrace.cfg", t2, zv, replay_args=["-mode", "space"])
     maxn = max(r["n"] for c in c2.values() for r in c["runs"])
     tw = _twin(out, zv)
@@ -144,7 +144,7 @@ def _twin(out, zv):
     t3 = os.path.join(vlib.scratch(), "twininv.ndjson")
     vlib.run_zv(zv, "tailtwin", ["-mode", "inv"], t3)
     t4 = os.path.join(vlib.scratch(), "twinspace.ndjson")
-    vlib.run_zv(zv, "tailtwin", ["-mode", "space"], t4, timeout=3000)
+    vlib.run_zv(zv, "tailtwin", ["-mode", "space"], t4, timeout=6000)
     # one TLC run judges both kinds of case (the trace specification tells them apart)
     t34 = os.path.join(vlib.scratch(), "twin.ndjson")
     with open(t34, "w") as f:
